@@ -128,6 +128,9 @@ mod rewind;
 pub mod server;
 pub mod service;
 pub mod stream;
+#[cfg(feature = "verif-hooks")]
+#[allow(missing_docs)]
+pub mod verif_hooks;
 
 pub use body::Body;
 #[cfg(feature = "client")]
